@@ -15,6 +15,7 @@ THEORIES = ['theories/L1Circuits/CircuitsProofs.vo', 'theories/L1Circuits/DeepPr
             'theories/L1Circuits/PyBitsProofs.vo',
             'theories/L2Compile/EmitProofs.vo',
             'theories/L2Compile/ThreadProofs.vo',
+            'theories/L2Compile/LeafProofs.vo',
             'theories/L2Compile/AcceptProofs.vo',
             'theories/L2Compile/CompileProofs.vo',
             'theories/L2Compile/Check.vo']
@@ -143,8 +144,10 @@ def prove(ctx):
         source=bitvector_gen.SRC, functions=bitvector_gen.FUNCTIONS,
         generated='coq/gen/BitvectorGen.v',
         bridge=['coq/GenProofs/BitvectorBridge.v',
+                'coq/GenProofs/BitvectorLeafBridge.v',
                 'coq/GenProofs/BitvectorFlatBridge.v',
-                'coq/GenProofs/BitvectorCorrect.v'],
+                'coq/GenProofs/BitvectorCorrect.v',
+                'coq/GenProofs/BitvectorFormula.v'],
         string_templates=templates, notes=notes)
     ctx.trusted.append(
         'translator tie T: tools/py2coq_bitvector.py (circuit layer of '
@@ -159,10 +162,11 @@ def prove(ctx):
         'flatten_arithmetic are read from the source with ast; the documented '
         'tokens from doc/doc.md; the lexer normal forms by running the lexer')
     ctx.trusted.append(
-        'tie H: the threading of mem/prime through Nodes.*.flatten (which '
-        'circuit is called on which operands, in which scope) and the '
-        'evaluation of the prefix string by symbolic/bdd.py are covered by '
-        'the truth-table correspondence only')
+        'tie H: the flatten branches that stay external (Binary ==, .., \\in; '
+        'the quantifier / LET / junction-list branches of Operator; <<>>; '
+        'the expansion of a definition in Var.flatten) and the evaluation of '
+        'the prefix string by symbolic/bdd.py are covered by the truth-table '
+        'correspondence only')
     ctx.trusted.append(
         'names: LET/registered definitions live in a separate name space in '
         'the model (formulas whose definitions re-use a declared variable '
